@@ -317,6 +317,10 @@ def rewrite_expr_literal_type(r):
         par = args[0]._impl.parent()._node
         if isinstance(par, LoopIR.BinOp) and par.op in ("/", "%") and par.rhs is node:
             return not (isinstance(args[1], int) and not isinstance(args[1], bool) and args[1] > 0)
+        # ... or the literal factor of an index product replaced by a variable (io * 4 -> io * ii)
+        if isinstance(par, LoopIR.BinOp) and par.op == "*" and not isinstance(args[1], int):
+            other = par.lhs if par.rhs is node else par.rhs
+            return not isinstance(other, LoopIR.Const)
     return False
 
 
@@ -935,3 +939,17 @@ def c17_negated_zero_literal(r):
     holds USub(Const 0), printed `-0`; the parser reads `-0` as the literal 0, which prints `0`.  Behaviour is
     equal; only the printed form differs after the round trip."""
     return r.get("property") == "C17" and str(r.get("detail", "")).strip() == "expr -0 vs 0" and r.get("behaviour") in ("equal", None)
+
+
+def reuse_buffer_out_of_scope(r):
+    """reuse_buffer(a, b) never checks that a's declaration is in scope where b is declared: two allocations in the
+    bodies of sibling loops / branches (vectorize and divide_loop produce them) can be merged, leaving the uses of
+    the second one without a declaration"""
+    if r.get("op") != "reuse_buffer" or r.get("kind") != "wellformed":
+        return False
+    p, op, args, env = _ctx(r)
+    a, b = args[0]._impl, args[1]._impl
+    pa = [tuple(x) for x in a._path[:-1]]
+    pb = [tuple(x) for x in b._path[:-1]]
+    # a's enclosing block must be b's enclosing block or one of its ancestors
+    return pb[: len(pa)] != pa
